@@ -291,7 +291,7 @@ impl Check for C11 {
         let today = Date::new(2024, 6, 15);
         let norm = |s: Seq| -> Seq { s.into_iter().map(|(p, e)| (normalize(&p), e)).collect() };
 
-        let mut judge = |out: &mut RunOut, fs_name: &str, order: &str, got: Seq, res: Result<(), String>| {
+        let judge = |out: &mut RunOut, fs_name: &str, order: &str, got: Seq, res: Result<(), String>| {
             let got = norm(got);
             out.mix(crate::prng::fnv(format!("{:?}{:?}", got, res.is_ok()).as_bytes()));
             if got != want {
